@@ -6,6 +6,7 @@ CONSTANTS
   NoDupRead = FALSE
   LoseMinKey = TRUE
   EarlyClean = FALSE
+  WithAborts = FALSE
 INVARIANTS Serializable OutcomeTruthful RetainsOverlapping
 PROPERTIES SnapshotStable AtomicCommit
 CHECK_DEADLOCK FALSE
